@@ -4,7 +4,7 @@ import vlib
 CFG = dict(
     imports=["From Verif.C10 Require Import Nf Model Spec MapsModel MapsSpec.", "Open Scope N_scope."],
     checker="check_any",
-    n=dict(quick=420, thorough=13000),
+    n=dict(quick=400, thorough=13000),
     shard=50,
     rule="interface-name sets (0-21 names, <=15 bytes) built from workload prefixes / host-style bases with tiny alphabets "
          "so that shared prefixes, names that are prefixes of others, one-char suffixes and duplicates are common; both "
@@ -40,28 +40,72 @@ CFG = dict(
 NFT_PKG = "./felix/nftables/"
 
 
+def _tree_key(ctx):
+    """Identity of everything the two driver binaries are built from: the commit of $REPO, its uncommitted diff,
+    its untracked files (by content), and the harness sources.  Same key => same binaries, so they can be reused."""
+    import hashlib, subprocess, glob
+    h = hashlib.sha256()
+    def git(*a):
+        return subprocess.run(["git", "-C", ctx.repo] + list(a), stdout=subprocess.PIPE, stderr=subprocess.DEVNULL).stdout
+    head = git("rev-parse", "HEAD")
+    if not head.strip():
+        return None                      # not a git tree: no caching
+    h.update(head); h.update(git("diff", "HEAD"))
+    for f in sorted(git("ls-files", "-o", "--exclude-standard").decode().split("\n")):
+        fp = os.path.join(ctx.repo, f)
+        if f and os.path.isfile(fp):
+            h.update(f.encode()); h.update(hashlib.sha256(open(fp, "rb").read()).digest())
+    for f in sorted(glob.glob(os.path.join(vlib.HARNESS, "C10", "**", "*.go"), recursive=True)):
+        h.update(f.encode()); h.update(open(f, "rb").read())
+    h.update(json.dumps(sorted((k, v) for k, v in vlib.go_env().items() if k.startswith("GO") or k == "CGO_ENABLED")).encode())
+    return h.hexdigest()[:24]
+
+
 def _build(ctx, harness_dirs=None, pkg=None, tags="verif", timeout=2400):
     """Two drivers: the stand-alone renderer driver (part 1) and the in-package test binary of felix/nftables
-    (part 2: the fake nft lives in that package's _test.go files)."""
-    import subprocess
+    (part 2: the fake nft lives in that package's _test.go files).  Both are cached under .build/cache-C10/<key>
+    where the key identifies the whole source tree + harness (see _tree_key), so an unchanged tree skips the builds."""
+    import subprocess, shutil
+    exe = os.path.join(ctx.build, "driver")
+    texe = os.path.join(ctx.build, "driver_maps.test")
+    key = _tree_key(ctx)
+    cdir = os.path.join(vlib.ROOT, ".build", "cache-C10", key) if key else None
+    if cdir and os.path.exists(os.path.join(cdir, "ok")):
+        shutil.copy2(os.path.join(cdir, "driver"), exe)
+        shutil.copy2(os.path.join(cdir, "driver_maps.test"), texe)
+        ctx.log("drivers reused from cache %s" % key)
+        return exe, "cached"
     exe, log = _orig_go_build(ctx, harness_dirs, pkg, tags, timeout)
     if exe is None:
         return None, log
     ov = vlib.make_overlay(ctx, harness_dirs)
-    texe = os.path.join(ctx.build, "driver_maps.test")
     if os.path.exists(texe):
         os.remove(texe)
     r = subprocess.run(["timeout", str(timeout), "go", "test", "-c", "-tags", tags, "-overlay", ov, "-vet=off", "-o", texe, NFT_PKG],
                        cwd=ctx.repo, env=vlib.go_env(), stdout=subprocess.PIPE, stderr=subprocess.STDOUT, text=True)
     if r.returncode != 0 or not os.path.exists(texe):
         return None, log + "\n" + r.stdout
+    if cdir:
+        base = os.path.dirname(cdir)
+        os.makedirs(base, exist_ok=True)
+        old = sorted((os.path.getmtime(os.path.join(base, d)), d) for d in os.listdir(base))
+        for _, d in old[:-3]:              # keep at most a few entries (disk is limited)
+            shutil.rmtree(os.path.join(base, d), ignore_errors=True)
+        tmp = cdir + ".tmp%d" % os.getpid()
+        os.makedirs(tmp, exist_ok=True)
+        shutil.copy2(exe, os.path.join(tmp, "driver")); shutil.copy2(texe, os.path.join(tmp, "driver_maps.test"))
+        open(os.path.join(tmp, "ok"), "w").write(key)
+        try:
+            os.rename(tmp, cdir)
+        except OSError:
+            shutil.rmtree(tmp, ignore_errors=True)
     return exe, log
 
 
 def _run(ctx, exe, args, timeout=3600, env=None):
     import subprocess
     n, seed = int(args[1]), int(args[3])
-    n_maps = max(20, n // 7)
+    n_maps = max(20, n // 8)
     lines = _orig_run_driver(ctx, exe, ["-n", n - n_maps, "-seed", seed], timeout=timeout, env=env)
     for l in lines:
         if "coq" in l:
